@@ -246,6 +246,10 @@ func DecodeOptionsDataSet(version uint16, payload *bytes.Buffer, listFieldsScope
 
 	listFieldsScopesSize := GetTemplateSize(version, listFieldsScopes)
 	listFieldsOptionSize := GetTemplateSize(version, listFieldsOption)
+	if listFieldsScopesSize+listFieldsOptionSize == 0 {
+		// records of no bytes: the loop below would never advance
+		return records, fmt.Errorf("OptionsDataSet: template describes zero-length records")
+	}
 
 	for payload.Len() >= listFieldsScopesSize+listFieldsOptionSize {
 		scopeValues, err := DecodeDataSetUsingFields(version, payload, listFieldsScopes)
@@ -271,6 +275,10 @@ func DecodeDataSet(version uint16, payload *bytes.Buffer, listFields []Field) ([
 	var records []DataRecord
 
 	listFieldsSize := GetTemplateSize(version, listFields)
+	if listFieldsSize == 0 {
+		// records of no bytes: the loop below would never advance
+		return records, fmt.Errorf("DataSet: template describes zero-length records")
+	}
 	for payload.Len() >= listFieldsSize {
 		values, err := DecodeDataSetUsingFields(version, payload, listFields)
 		if err != nil {
